@@ -3,7 +3,7 @@
                  (pinned = the code as it is, repaired = all four deviations switched off);
    denote_sel  : the specified semantics of Trav/SelectorSpec.v (threads and recursion frames). *)
 Require Import IP.Base.Bytes IP.DM.Value IP.Base.GoSem IP.Gen.FromGo IP.Trav.Selector IP.Trav.Walk IP.Trav.SelectorSpec IP.Trav.QuirkFree
-  IP.Proofs.TravSel IP.Proofs.TravPath IP.Proofs.TravSlice IP.Proofs.TravDenote IP.Proofs.TravDenoteWalk IP.Proofs.TravPinned IP.Proofs.TravCompile
+  IP.Proofs.TravSel IP.Proofs.TravPath IP.Proofs.TravSlice IP.Proofs.TravDenote IP.Proofs.TravDenoteWalk IP.Proofs.TravPinned IP.Proofs.TravCurrent IP.Proofs.TravCompile
   IP.Proofs.TravC07Refuted.
 Open Scope Z_scope.
 
@@ -128,3 +128,52 @@ Proof.
   apply Hd. apply (H w1_sel s [] 20%nat w1_root Hc eq_refl eq_refl eq_refl eq_refl).
 Qed.
 Print Assumptions C07_full_refuted.
+
+(* ====================================================================================================
+   The CURRENT tree: b8b93dd, 873f3b3 and 87fc183 switched three deviations off; [current] has only the shared
+   depth counter left.  For every compiled selector satisfying the syntactic condition
+
+     no_shared_depth s  =  no empty union anywhere in s, and every ExploreRecursive in s has a live sequence (a clause
+                           that is not just edges) and either no depth limit, or a sequence all of whose edges sit at
+                           the same step depth ([uniform]: every iteration takes the same number of steps, so all
+                           members of the current selector pass their edges together and a member that is still
+                           mid-sequence when the counter drops has no edge left to consult it)
+
+   the walk of the current tree is exactly what the selector denotes — every graph and root with unique map keys,
+   every fuel.  (Proof: thread lists compared up to [norm], which erases the depth counters no thread can read.) *)
+Theorem C07_walk_denotes_current_tree : forall v s g f root,
+  compile v = COk s -> no_shared_depth s = true ->
+  keys_graph g = true -> small_graph g = true -> keys_ok root = true -> small_dm root = true ->
+  walk_adv current g f root s = denote_sel g f root s.
+Proof. intros v s g f root H Hn Hg Hsg Hk Hsm. apply walk_denote_current; auto. eapply compile_wf; eauto. Qed.
+Print Assumptions C07_walk_denotes_current_tree.
+
+(* the condition holds for the realistic selectors ... *)
+Theorem C07_no_shared_depth_realistic :
+  exists s, compile (d_rec_depth 5 (d_union [d_match; d_all d_edge])) = COk s /\ no_shared_depth s = true.
+Proof. exact no_shared_depth_realistic. Qed.
+Print Assumptions C07_no_shared_depth_realistic.
+Theorem C07_no_shared_depth_more :
+  exists s, compile (d_rec_depth 3 (d_union [d_all d_match; d_all d_edge;
+                                             d_fields [([97%N], d_rec_none (d_all d_edge))]])) = COk s /\
+            no_shared_depth s = true.
+Proof. exact no_shared_depth_more. Qed.
+Print Assumptions C07_no_shared_depth_more.
+
+(* ... and fails for the known witness, where the current tree does differ from the specification *)
+Theorem C07_refuted_shared_depth_current :
+  exists s, compile w4_sel = COk s /\ no_shared_depth s = false /\
+            walk_adv current [] 20 w4_root s <> denote_sel [] 20 w4_root s.
+Proof. exact shared_depth_outside. Qed.
+Print Assumptions C07_refuted_shared_depth_current.
+
+(* A fifth deviation, found by this proof: replaceRecursiveEdge drops an EMPTY union standing next to an edge, so
+   R(depth 1, all(union(edge, union()))) over [[1]] does not visit the element, although all(union()) visits its
+   children (1 event instead of 2); the model with per-member wrapping keeps it. *)
+Theorem C07_refuted_empty_union_dropped :
+  exists s, compile w5_sel = COk s /\ noempty s = false /\ nsd_rec s = true /\
+            length (fst (walk_adv current [] 20 w5_root s)) = 1%nat /\
+            length (fst (denote_sel [] 20 w5_root s)) = 2%nat /\
+            walk_adv repaired [] 20 w5_root s = denote_sel [] 20 w5_root s.
+Proof. exact empty_union_dropped. Qed.
+Print Assumptions C07_refuted_empty_union_dropped.
